@@ -213,7 +213,7 @@ def run_models(rng, nmodels, npoints, want=("F", "J"), module_every=8, kinds=Non
                     stats["degenerate_after_simplification"] = stats.get("degenerate_after_simplification", 0) + 1
                     continue
                 b.add_inline()
-                if module_every and k % module_every == 0:
+                if module_every and (k % module_every == 0 or (gens is None and k < len(fixed))):      # every corpus model also as a rendered module
                     b.add_module(tmp, f"pipe_m{k}_{os.getpid()}", jit=jit)
             except Exception as ex:  # noqa
                 stats["build_raised"] += 1
